@@ -126,7 +126,7 @@ pub fn run_case(case: &Case) -> Trace {
         ctx().events.clear();
         let obs = run_op(&mut live, op);
         let events = std::mem::take(&mut ctx().events);
-        ctx().inject = None;
+        arm_inject(None);
         let snap = live.any().map(snapshot);
         ops.push(OpObs { obs, events, snap });
     }
@@ -167,7 +167,7 @@ fn run_op(live: &mut Live, op: &Op) -> Obs {
             let Some(u) = live.get(*inst) else {
                 return Obs::NotApplicable;
             };
-            ctx().inject = *inject;
+            arm_inject(*inject);
             #[cfg(not(feature = "cfg-nostd-nolock"))]
             let result = if *on_thread {
                 std::thread::scope(|s| {
